@@ -85,6 +85,24 @@ def extract(repo):
     j = tail.find(");")          # end of parser.report(...)
     after_report = tail[j + 2:] if j >= 0 else ""
     facts["blockElseConsumes"] = bool(re.match(r"\s*associated_comments\.extend\(parser\.consume\(\)\);", after_report))
+    # 1b. `parse_toplevel` consumes the keyword it was dispatched on (class / interface / private), and
+    #     `assert_and_consume_keyword(k)` consumes when the next token is the keyword k
+    ack = fn_body(src, "fn assert_and_consume_keyword(&mut self, expected_kind: Keyword)", "assert_and_consume_keyword")
+    assert_consumes = bool(re.search(r"if TokenContent::Keyword\(expected_kind\) == content \{\s*let comments = self\.consume\(\);", ack))
+    top = fn_body(src, "pub(super) fn parse_toplevel(parser: &mut super::SourceParser)", "parse_toplevel")
+    kw = fn_body(src, "fn parse_private_interface_or_class_keyword(", "parse_private_interface_or_class_keyword")
+    priv = block_after(kw, "if let Token(loc, TokenContent::Keyword(Keyword::Private)) = parser.peek()", "toplevel `private` arm")
+    facts["toplevelConsumesKeyword"] = (assert_consumes
+        and bool(re.match(r"\s*let \(loc, is_private, is_interface, comments\) =\s*parse_private_interface_or_class_keyword\(parser\);", top))
+        and bool(re.match(r"\s*associated_comments\.append\(&mut parser\.consume\(\)\);", priv))
+        and kw.count("parser.assert_and_consume_keyword(Keyword::Interface)") == 2
+        and kw.count("parser.assert_and_consume_keyword(Keyword::Class)") == 2
+        and kw.count("matches!(parser.peek().1, TokenContent::Keyword(Keyword::Interface))") == 2)
+    # 3b. `parse_statement` (dispatched on `let` only) consumes the `let`
+    stmt = fn_body(src, "pub(super) fn parse_statement(parser: &mut super::SourceParser)", "parse_statement")
+    facts["statementConsumesLet"] = (assert_consumes
+        and bool(re.match(r"\s*let \(start_loc, mut concrete_comments\) = parser\.assert_and_consume_keyword\(Keyword::Let\);", stmt))
+        and bool(re.search(r"Token\(_, TokenContent::Keyword\(Keyword::Let\)\) => \{\s*statements\.push\(parse_statement\(parser\)\);", loop)))
     # 4. class-member loop: `while let Keyword(Function | Method | Private) = peek { parse member }`;
     #    the member parser consumes the keyword it was dispatched on
     cls = fn_body(src, "pub(super) fn parse_class(", "parse_class")
@@ -94,11 +112,11 @@ def extract(repo):
     priv = block_after(mem, "if let Token(peeked_loc, TokenContent::Keyword(Keyword::Private)) = peeked", "member `private` arm")
     fun = block_after(mem, "if let Token(_, TokenContent::Keyword(Keyword::Function)) = &peeked", "member `function` arm")
     facts["memberConsumesKeyword"] = ("parser.consume()" in priv and "parser.consume()" in fun
-                                      and "parser.assert_and_consume_keyword(Keyword::Method)" in mem)
+                                      and "parser.assert_and_consume_keyword(Keyword::Method)" in mem and assert_consumes)
     # 5. match-arm loop: `while matches!(peek, `{` | `(` | `_` | LowerId | UpperId) { pattern -> expr }`;
     #    the pattern parser consumes each of these start tokens
     mt = fn_body(src, "fn parse_match(parser: &mut super::SourceParser)", "parse_match")
-    m = re.search(r"while matches!\(\s*parser\.peek\(\)\.1,(.*?)\)\s*\{\s*matching_list\.push\(parse_pattern_to_expression\(parser\)\);", mt, re.S)
+    m = re.search(r"while matches!\(\s*parser\.peek\(\)\.1,(.*?)\)\s*\{\s*matching_list\.push\(parse_pattern_to_expression\(parser[^;]*\)\);", mt, re.S)
     if not m:
         raise Shape("parse_match: the arm loop `while matches!(peek, ..) { parse_pattern_to_expression }` is gone")
     starts = set(re.findall(r"TokenOp::(\w+)|TokenContent::(LowerId|UpperId)", m.group(1)))
@@ -106,7 +124,7 @@ def extract(repo):
     if starts != {"LeftBrace", "LeftParenthesis", "Underscore", "LowerId", "UpperId"}:
         raise Shape(f"parse_match: arm loop start set changed: {sorted(starts)}")
     p2e = fn_body(src, "fn parse_pattern_to_expression(", "parse_pattern_to_expression")
-    if not re.match(r"\s*let pattern = super::pattern_parser::parse_matching_pattern\(parser, Vec::new\(\)\);", p2e):
+    if not re.match(r"\s*let pattern = super::pattern_parser::parse_matching_pattern\(parser, [^;]*\);", p2e):
         raise Shape("parse_pattern_to_expression no longer starts with parse_matching_pattern")
     single = fn_body(src, "fn parse_single_matching_pattern(", "parse_single_matching_pattern")
     tup = fn_body(src, "fn parse_tuple_pattern(parser: &mut super::SourceParser)", "parse_tuple_pattern")
